@@ -79,10 +79,20 @@ def _slow_delivery(q, ms):
 
 def consumer_main(iq, c, sc, go, res_q, renew_req=None, renew_ack=None):
     evs = []
+    revs = []       # what renew() does on the helper queues (validated against RenewTokensTrace)
     try:
         if sc.get('slow_ms'):
             for nm in ('_used_lids', '_spare_lids', '_applied_lids'):
                 _slow_delivery(getattr(iq, nm), sc['slow_ms'])
+        if renew_req is not None:          # this process is the one that calls renew()
+            used_get = iq._used_lids.get
+
+            def logged_get(*a, **k):
+                z = used_get(*a, **k)
+                revs.append({'ev': 'GetUsed'})
+                return z
+
+            iq._used_lids.get = logged_get
         for r in range(1, sc['rounds'] + 1):
             if not go[r - 1].wait(STEP_S):
                 raise RuntimeError(f'round {r} never started')
@@ -98,9 +108,11 @@ def consumer_main(iq, c, sc, go, res_q, renew_req=None, renew_ack=None):
             if renew_req is not None and r < sc['rounds']:
                 if sc.get('renewer') != 'self' and not renew_req[r - 1].wait(STEP_S):
                     raise RuntimeError(f'round {r}: the request to renew never came')
+                revs.append({'ev': 'RenewStart'})
                 iq.renew()
+                revs.append({'ev': 'RenewEnd'})
                 renew_ack[r - 1].set()
-        res_q.put(('events', 'c', c, evs))
+        res_q.put(('events', 'c', c, evs, revs))
     except BaseException as e:  # noqa: BLE001
         import traceback
         res_q.put(('error', 'c', c, ''.join(traceback.format_exception(type(e), e, e.__traceback__))[-2000:], evs))
@@ -165,6 +177,8 @@ def _run_scenario(sc, box):
     got = len([x for x in pending if x[0] == 'events'])
     for msg in pending:
         seqs[(msg[1], msg[2])] = msg[3]
+        if len(msg) > 4 and msg[4]:
+            box['renew_ev'] = msg[4]
     while got < m + nc:
         msg = recv(STEP_S)
         if msg is None:
@@ -175,6 +189,8 @@ def _run_scenario(sc, box):
             return
         if msg[0] == 'events':
             seqs[(msg[1], msg[2])] = msg[3]
+            if len(msg) > 4 and msg[4]:
+                box['renew_ev'] = msg[4]
             got += 1
     for p in procs:
         p.join(STEP_S)
@@ -185,7 +201,7 @@ def _run_scenario(sc, box):
 
 
 def run_job(job):
-    traces, hangs, n_exec = [], [], 0
+    traces, hangs, n_exec, renew_traces = [], [], 0, []
     for item in job['items']:
         sc = item['sc']
         box = {}
@@ -219,4 +235,6 @@ def run_job(job):
         rec['p'] = dict(header(sc), seqs=seqs)
         rec['ev'] = [e for s in seqs for e in s]
         traces.append(rec)
-    return {'traces': traces, 'hangs': hangs, 'n_exec': n_exec}
+        if box.get('renew_ev'):
+            renew_traces.append({'id': item['id'], 'p': {'m': sc['m'], 'rounds': sc['rounds']}, 'ev': box['renew_ev'], 'sc': sc})
+    return {'traces': traces, 'hangs': hangs, 'n_exec': n_exec, 'renew_traces': renew_traces}
